@@ -326,7 +326,8 @@ fn main() {
                         let pend: Vec<&Op> = p.pending.iter().collect();
                         let image = build_image(&p.durable, &pend, &p.cases[ci]);
                         // (a replay always runs the full probe: accounting, a write transaction after the recovery, savepoint restores)
-                        let do_second = replay.as_ref().map_or((w as u64) % second_every == 0 || sp_commits.contains(&owner[p.c].0), |_| true);
+                        let sampled = (w as u64) % second_every == 0;
+                        let do_second = replay.as_ref().map_or(sampled || sp_commits.contains(&owner[p.c].0), |_| true);
                         let (outcome, rec) = if reader3 || writer3 {
                             // C19: the image is opened by the release that did not write it; what it shows must also be
                             // what the writing release itself shows for the same image ("identical contents")
@@ -357,7 +358,7 @@ fn main() {
                             add(outcome, 1, json!(null));
                         }
                         // crash again during the recovery itself
-                        if let Some((img, rlog)) = rec {
+                        if let Some((img, rlog)) = rec.filter(|_| sampled || replay.is_some()) {
                             let mut rng2 = StdRng::seed_from_u64(rseed ^ w as u64);
                             let only2: Option<(usize, Case)> = replay.as_ref().filter(|r| r["depth"].as_u64() == Some(2))
                                 .map(|r| (r["inner"]["at"].as_u64().unwrap() as usize, Case::from_json(&r["inner"]["case"])));
